@@ -875,6 +875,20 @@ fn decode_stream(r: &Rng, out: &mut Out, n: usize, with_leaf: bool) {
             }
         }
     }
+    // the enumerated fields: every code 0..=40 and the 16-bit corners, at each place a code is carried
+    for code in (0..=40u16).chain([0x00ff, 0x0100, 0x0101, 0x0111, 0x1100, 0x7fff, 0x8000, 0x8001, 0xff05, 0xfffe, 0xffff]) {
+        let c = code.to_be_bytes();
+        let mut recs: Vec<Vec<u8>> = vec![record(1, 0, 0, &c), record(1, 0, 29, &c), record(1, 0, 1, &c), record(1, 0, 1, &[0, 1, c[0], c[1]]), record(1, 0, 1, &[0, 1, c[0], c[1], 0x6f, 0x6b])];
+        // the attribute number itself, with a payload most kinds accept
+        recs.push(record(1, 0, code, &[0, 1, 0, 1, 0, 1, 0, 1, 0, 1]));
+        recs.push(record(1, 0, code, &[]));
+        recs.push(record(3, 0, code, &r.bytes(16)));
+        for rec in recs {
+            out.push(format!("avps {}", hex(&rec)));
+            out.push(format!("dec 111 {}", hex(&assemble(0x1320, 1, 2, 3, 4, &[rec.clone()]))));
+            out.push(format!("dec 000 {}", hex(&assemble(0x1320, 1, 2, 3, 4, &[mt_record(r), rec]))));
+        }
+    }
     if with_leaf {
         for k in ALL_KINDS.iter() {
             let attr = crate::ops::attr_of_kind(k).unwrap();
@@ -995,6 +1009,13 @@ fn c03_stream(r: &Rng, out: &mut Out, n: usize, thorough: bool) {
         out.push(format!("rt {}", t.render()));
     }
     out.push("rt C(0,0,0,0,0)[]".to_string());
+    // the same round trip with the message encoded behind what the writer already holds (another message, say)
+    for i in 0..(n / 10).max(100) {
+        let pl = *r.pick(&[1usize, 2, 3, 4, 7, 12, 20, 255, 256, 300, 1023]);
+        let t = gen_control(r, if i % 10 == 0 { 20 } else { 5 }, i % 7 == 0);
+        out.push(format!("rtp {} {}", hex(&r.bytes(pl)), t.render()));
+    }
+    out.push(format!("rtp {} C(0,0,0,0,0)[]", hex(&r.bytes(12))));
     // sizes close to 65535: 63 AVPs of 1023 octets + one filler + header
     for total in [65000usize, 65534, 65535] {
         let mut avps = vec![TAvp::new("MessageType", vec!["Hello".into()])];
@@ -1041,6 +1062,24 @@ fn c04_stream(r: &Rng, out: &mut Out, n: usize) {
     }
     let t = TMsg::Data { p: true, len: Some(65012), tid: 65535, sid: 0, nsnr: Some((65535, 0)), off: None, data: r.bytes(65000) };
     out.push(format!("rt {}", t.render()));
+    // without Length the payload is whatever the datagram holds: sizes around 64 KiB and well beyond
+    for (i, total) in [65530usize, 65534, 65535, 65536, 65537, 65540, 70000, 131080].iter().enumerate() {
+        let nsnr = if i % 2 == 0 { None } else { Some((r.u16x(), r.u16x())) };
+        let off = if i % 3 == 0 { Some(r.below(5) as u16) } else { None };
+        let dl = total - data_header_len(false, nsnr.is_some(), off.is_some());
+        let t = TMsg::Data { p: i % 4 == 1, len: None, tid: r.u16x(), sid: r.u16x(), nsnr, off, data: r.bytes(dl) };
+        out.push(format!("rt {}", t.render()));
+    }
+    for total in [65533usize, 65534, 65535] {
+        let dl = total - data_header_len(true, true, false);
+        let t = TMsg::Data { p: false, len: Some(total as u16), tid: r.u16x(), sid: r.u16x(), nsnr: Some((1, 2)), off: None, data: r.bytes(dl) };
+        out.push(format!("rt {}", t.render()));
+    }
+    // the same round trip with the message encoded behind what the writer already holds
+    for i in 0..(n / 20).max(50) {
+        let pl = *r.pick(&[1usize, 2, 3, 7, 12, 255, 256, 300]);
+        out.push(format!("rtp {} {}", hex(&r.bytes(pl)), gen_data(r, i % 2 == 0).render()));
+    }
 }
 
 fn enc_stream(r: &Rng, out: &mut Out, n: usize, prefixes: bool, oversize: bool) {
@@ -1446,8 +1485,29 @@ fn c15_stream(r: &Rng, out: &mut Out, n: usize) {
         let img = assemble(0x1320, r.u16x(), r.u16x(), r.u16x(), r.u16x(), &recs);
         let kk = if badlen_at.is_some() { recs.len() } else { k };
         out.push(format!("c15 {} {} {} {}", hex(&img), nbad, if first_mt || false { 1 } else { 0 }, kk));
+        // the body ends where Length says: whatever the buffer holds after it (the next message, padding, records
+        // good or bad) is not part of this message and changes neither the verdict nor the error count
+        if r.chance(1, 3) {
+            let mut img2 = img.clone();
+            match r.below(5) {
+                0 => img2.extend(vec![0u8; 6 + r.below(20)]),
+                1 => img2.extend(good_record(r)),
+                2 => img2.extend(bad_record(r, true).0),
+                3 => img2.extend(valid_image(r, false)),
+                _ => img2.extend(r.bytes(1 + r.below(40))),
+            }
+            out.push(format!("c15 {} {} {} {}", hex(&img2), nbad, if first_mt || false { 1 } else { 0 }, kk));
+        }
     };
     out.push(format!("c15 {} 0 0 0", hex(&assemble(0x1320, 1, 2, 3, 4, &[]))));
+    for tl in [1usize, 5, 6, 7, 12, 40] {
+        let mut z = assemble(0x1320, 1, 2, 3, 4, &[]);
+        z.extend(r.bytes(tl));
+        out.push(format!("c15 {} 0 0 0", hex(&z)));
+        z.truncate(12);
+        z.extend(good_record(r));
+        out.push(format!("c15 {} 0 0 0", hex(&z)));
+    }
     for k in 1..=6usize {
         for mask in 0..(1u64 << k) {
             // first record is a Message Type AVP (good, or bad by its code when bit 0 is set)
@@ -1562,6 +1622,25 @@ fn c18_stream(r: &Rng, out: &mut Out, n: usize) {
             }
         }
         out.push(format!("rd {} {}", hex(&data), if ops.is_empty() { ".".to_string() } else { ops.join(",") }));
+    }
+    // slices around and beyond 64 KiB: a reader is a cursor over the slice it was given, however long
+    for dl in [255usize, 256, 257, 4096, 65534, 65535, 65536, 65537, 70000, 131075] {
+        let data = r.bytes(dl);
+        let h = hex(&data);
+        out.push(format!("rd {} k{},u8", h, dl - 1));
+        out.push(format!("rd {} b{},b1", h, dl));
+        out.push(format!("rd {} b{}", h, dl + 1));
+        out.push(format!("rd {} s{}", h, dl));
+        out.push(format!("rd {} s{},u16,u8", h, dl - 3));
+        if dl > 16 {
+            out.push(format!("rd {} k{},u64,u32,u16,u8,b1,b1", h, dl - 16));
+            out.push(format!("rd {} u8,s{},b{},k3,u32", h, dl - 9, dl - 20));
+        }
+    }
+    for wl in [255usize, 256, 65535, 65536, 70000] {
+        let chunk = hex(&r.bytes(wl));
+        out.push(format!("wr w:{},u16:258,at{}:aabb,at{}:cc,at{}:dd,u64:72623859790382856,at{}:0102030405060708", chunk, wl - 2, wl + 1, wl + 2, wl + 2));
+        out.push(format!("wr u8:7,w:{},at{}:ee,at{}:ff,at0:11,w:{}", chunk, wl, wl + 1, hex(&r.bytes(3))));
     }
     out.push("rd . b0".to_string());
     out.push("rd . b1".to_string());
@@ -1925,6 +2004,8 @@ pub fn generate(prop: &str, tier: &str, seed: u64) -> Vec<String> {
                 out.push(format!("enca . {}", t.render()));
             }
             enc_stream(&r, &mut out, n(15000, 300000), false, false);
+            // the specified octets do not depend on what the writer already holds
+            enc_stream(&r, &mut out, n(3000, 60000), true, false);
             for m in MESSAGE_TYPES.iter() {
                 out.push(format!("enca . MessageType({:?})", m));
             }
@@ -2071,7 +2152,17 @@ pub fn generate(prop: &str, tier: &str, seed: u64) -> Vec<String> {
         "C16" => c16_stream(&mut out, thorough),
         "C17" => c17_stream(&r, &mut out, n(500, 10000)),
         "C18" => c18_stream(&r, &mut out, n(15000, 300000)),
-        "C19" => c19_stream(&r, &mut out, n(6000, 100000)),
+        "C19" => {
+            c19_stream(&r, &mut out, n(6000, 100000));
+            // a print or a memo can sit on any path: a sample of every other property's stream, so that whatever
+            // code any stream reaches is also run under the watch on fd 1 / fd 2, reordered, and from 16 threads
+            for q in ["C01", "C03", "C04", "C05", "C06", "C07", "C08", "C10", "C11", "C12", "C13", "C14", "C15", "C16", "C17", "C18", "C20"] {
+                let ls: Vec<String> = generate(q, "quick", seed).into_iter().filter(|l| l.len() < 6000).collect();
+                let want = n(500, 5000);
+                let step = (ls.len() / want).max(1);
+                out.lines.extend(ls.into_iter().step_by(step));
+            }
+        }
         "C20" => c20_stream(&r, &mut out, n(12000, 250000), thorough),
         _ => {}
     }
